@@ -255,6 +255,12 @@ func RepExprs(yield func(name string, x X)) {
 	yield("slice-then-slice", Slice(Slice(Col("c1"), xp(Col("c2")), xp(Col("c3"))), xp(Col("c4")), xp(Col("c5"))))
 	yield("subscript-subquery-then-slice", Slice(Subscript(Col("c1"), Subq(simpleSel("t8"))), xp(Int("1")), xp(Int("2"))))
 	yield("tuple", Tuple([]X{Col("c1"), Col("c2")}))
+	// a construct directly inside the same construct (pooled node types meet themselves)
+	yield("tuple-of-tuples", Tuple([]X{Tuple([]X{Int("1"), Col("c2")}), Tuple([]X{Col("c3"), Int("4")})}))
+	yield("array-of-arrays", Array([]X{Array([]X{Int("1"), Col("c2")}), Array([]X{Col("c3")})}))
+	yield("call-of-calls", Func("f1", []X{Func("f2", []X{Col("c1")}, FuncOpts{}), Func("f3", []X{Col("c2"), Int("1")}, FuncOpts{})}, FuncOpts{}))
+	yield("case-in-case", Case(nil, []When{{Col("c1"), Case(xp(Col("c2")), []When{{Int("1"), Col("c3")}}, xp(Col("c4")))}}, xp(Col("c5"))))
+	yield("in-list-of-tuples", In(Tuple([]X{Col("c1"), Col("c2")}), false, []X{Tuple([]X{Int("1"), Int("2")}), Tuple([]X{Col("c3"), Int("4")})}))
 	yield("json-arrow", Bin("->", Col("c1"), Str("k")))
 	yield("json-contains", Bin("@>", Col("c1"), Col("c2")))
 	yield("regex", Bin("~", Col("c1"), Str("p")))
